@@ -52,6 +52,9 @@ def pcgrad(index, ctx):
     from ..normalize import unflatten_schedules
 
     fn = unflatten_schedules(fn)  # one loop over a precomputed list of (i, j) pairs is the loop nest the list enumerates
+    from ..normalize import expand_maintained_products, split_skip_guards
+
+    fn = expand_maintained_products(split_skip_guards(fn))  # `if a or b: continue`, `if not c: continue; rest`; products kept up to date instead of recomputed
     # the conflict test: an If whose test compares a value with 0 (any orientation / negation)
     from ..guards import implies, oriented
 
@@ -125,6 +128,11 @@ def pcgrad(index, ctx):
         sl_ = norm_text(u.target.slice).replace(" ", "").strip("()")
         idx_ok = sl_ == jvar or sl_ == f"{ivar},{jvar}"  # w[j] on the row's own vector, or W[i, j] on the matrix whose row i is that vector
         val = u.value
+        if isinstance(val, ast.Name):
+            # `c = ip / G[j, j]; w[j] -= c`: the step size held in a local of the conflict branch
+            loc_defs = [s_ for s_ in conflict_body if isinstance(s_, ast.Assign) and len(s_.targets) == 1 and isinstance(s_.targets[0], ast.Name) and s_.targets[0].id == val.id]
+            if len(loc_defs) == 1 and conflict_body.index(loc_defs[0]) < conflict_body.index(u):
+                val = loc_defs[0].value
 
         def squared_norm_of_j(e):
             """G[j, j], or d[j] where d is the diagonal of G (a local holding `G.diagonal()` / `torch.diag(G)` is looked through)."""
@@ -373,7 +381,12 @@ def graddrop_vectorised(ctx, fi, fn, ok_draw) -> bool:
     mask_names = {n_ for n_, s2 in assigns.items() if any(isinstance(x, ast.Compare) for x in ast.walk(s2.value)) and not isinstance(s2.value, ast.IfExp)}
     opnd = lambda c: c.args[0] if norm_text(c.func) == "torch.sum" else c.func.value
     # the sum over the rows of the masked matrix (not the column statistics the keep probability is made of)
-    sums = [c for c in sums if dim0(c) and ({x.id for x in ast.walk(opnd(c)) if isinstance(x, ast.Name)} & mask_names)]
+    def reads_mask(c):
+        # (directly, or through single-assignment locals: `coefficients = leak + (1 - leak) * mask`)
+        e_ = inline_locals(opnd(c), fn, keep=mask_names | {mparam})
+        return bool({x.id for x in ast.walk(e_) if isinstance(x, ast.Name)} & mask_names)
+
+    sums = [c for c in sums if dim0(c) and reads_mask(c)]
     if len(sums) != 1:
         return False
     operand = opnd(sums[0])
